@@ -38,11 +38,11 @@ def session(case):
     for op, arg in case["hist"] + [["create", case["std"]], ["probe", case["probe"]]]:
         if op == "create":
             P = fp.create(arg)
-            steps.append({"op": op, "arg": arg, "scope": fp.scope() or "", "tables": fp.table_names()})
+            steps.append({"op": op, "arg": arg, "scope": fp.scope() or "", "tables": fp.table_names(), "forest": fp.tables()})
         else:
             src = PROBES[arg] if op == "probe" else TEXT[arg]
             o, t = fp.parse(P, src)
-            st = {"op": op, "arg": arg, "res": o["res"], "scope": fp.scope() or "", "tables": fp.table_names(),
+            st = {"op": op, "arg": arg, "res": o["res"], "scope": fp.scope() or "", "tables": fp.table_names(), "forest": fp.tables(),
                   "esc": (o.get("type"), o.get("site")) if o["res"] == "esc" else None}
             if op == "probe":
                 st["struct"] = fp.struct(t) if t is not None else None
@@ -124,8 +124,16 @@ def run(prop, tier=None, replay=None):
             continue
         tables = set()
         bad = None
+        forest = []
+        polluted = False
         for st in r["steps"]:
             op, arg = st["op"], st["arg"]
+            prev_forest, forest = forest, st.get("forest", [])
+            if op == "fail" and st["res"] != "ok" and st["scope"] == "" and set(st["tables"]) == tables and forest != prev_forest:
+                # same table names, but the content of a table changed: the failed parse re-used an existing table
+                bad = ("failure-left-symbols-in-an-existing-table", st)
+                polluted = True
+                break
             if op == "create":
                 tables = set()
                 exp_scope = ""
@@ -154,7 +162,9 @@ def run(prop, tier=None, replay=None):
         if bad:
             st = bad[1]
             sig = {"clause": bad[0], "op": st["op"], "arg": st["arg"]}
-            chk.violation(sig, "C09: %s after history %s ; create(%s) ; parse(%s): step %s" % (bad[0], c["hist"], c["std"], c["probe"], {k: st[k] for k in st if k not in ("struct", "text")}),
+            if polluted:
+                sig = {"clause": bad[0]}
+            chk.violation(sig, "C09: %s after history %s ; create(%s) ; parse(%s): step %s" % (bad[0], c["hist"], c["std"], c["probe"], {k: st[k] for k in st if k not in ("struct", "text", "forest")}),
                           {"case": c, "clause": bad[0]})
     # failing parses observed at the protocol level
     if not replay:
